@@ -73,7 +73,8 @@ func init() {
 		}
 		for _, max := range []int{0, 11, 12, 13, 14, 15} {
 			d.Do(Ev{"op": "date.set", "max": max})
-			for _, y := range []int{9999, 10000, 10001, 99999, 100000, 999999, 1000000, 9999999, 10000000, 99999999, 100000000, 999999999, 999999996} {
+			for _, y := range []int{9999, 10000, 10001, 99999, 100000, 999999, 1000000, 9999999, 10000000, 99999999, 100000000, 999999999, 999999996,
+				2024 + 1<<13, 2024 + 1<<16, 2024 + 1<<20, 2024 + 1<<23, 2024 + 1<<24, 2092 + 1<<23, 2024 + 1<<29} {
 				for _, md := range [][2]int{{1, 1}, {2, 28}, {2, 29}, {12, 31}, {10, 10}} {
 					if md[1] <= daysIn(y, md[0]) {
 						emit(y, md[0], md[1], 0)
@@ -188,6 +189,23 @@ func init() {
 					for dd := 0; dd < 100; dd++ {
 						parse([]byte(y+"-"+pad(m, 2)+"-"+pad(dd, 2)), 0, "s")
 						parse([]byte(y+pad(m, 2)+pad(dd, 2)), 0, "b")
+					}
+				}
+			}
+		}
+		// (1b) twins of ordinary dates at power-of-two year offsets (keys packed or truncated too
+		// narrowly make them collide), parsed right after their twin
+		for bi, base := range [][3]int{{2092, 2, 29}, {2024, 2, 29}, {2023, 2, 28}, {1999, 12, 31}, {2100, 3, 1}} {
+			if !d.Mine(bi) {
+				continue
+			}
+			for sh := 13; sh <= 29; sh++ {
+				for _, md := range [][2]int{{base[1], base[2]}, {2, 29}, {2, 30}, {3, 1}} {
+					parse([]byte(pad(base[0], 4)+"-"+pad(md[0], 2)+"-"+pad(md[1], 2)), 0, "s")
+					y := base[0] + 1<<uint(sh)
+					if y <= 999999999 {
+						parse([]byte(itoa(y)+"-"+pad(md[0], 2)+"-"+pad(md[1], 2)), 0, "b")
+						parse([]byte(itoa(y)+pad(md[0], 2)+pad(md[1], 2)), 0, "s")
 					}
 				}
 			}
@@ -447,6 +465,12 @@ func init() {
 				add(y, md[0], md[1])
 			}
 		}
+		// negative and far years: ordering is claimed for any two dates
+		for _, y := range []int{-2147483647, -1500000000, -999999999, -4999999, -1999999, -10000, -9999, -401, -400, -100, -5, -4, -1, 10000, 99999, 100000, 1999999, 4999999, 999999999, 1500000000, 2147483647} {
+			for _, md := range [][2]int{{1, 1}, {2, 28}, {2, 29}, {3, 1}, {12, 31}} {
+				add(y, md[0], md[1])
+			}
+		}
 		if d.Thorough() {
 			for y := 2019; y <= 2026; y++ {
 				for m := 1; m <= 12; m++ {
@@ -499,7 +523,8 @@ func init() {
 						continue
 					}
 					for _, dd := range dds {
-						if !d.Thorough() && (k+dd)%3 != 0 && !(dy == 0 && dm == 0) && !(dm == 0 && dd == 0) && !(dy == 0 && dd == 0) {
+						leapBase := a[1] == 2 && a[2] == 29
+						if !d.Thorough() && !leapBase && (k+dd)%3 != 0 && !(dy == 0 && dm == 0) && !(dm == 0 && dd == 0) && !(dy == 0 && dd == 0) {
 							continue
 						}
 						d.Do(Ev{"op": "date.add", "a": a, "dy": dy, "dm": dm, "dd": dd})
@@ -590,7 +615,8 @@ func init() {
 		for _, x := range [][]int{{2024, 2, 27}, {2024, 2, 28}, {2024, 2, 29}, {2024, 3, 1}, {2024, 3, 2}, {2023, 2, 28}, {2023, 3, 1},
 			{2024, 7, 30}, {2024, 7, 31}, {2024, 8, 1}, {2024, 8, 30}, {2024, 8, 31}, {2024, 9, 1}, {2024, 9, 30}, {2024, 10, 1}, {2024, 10, 31}, {2024, 11, 1},
 			{1999, 12, 31}, {2000, 1, 1}, {2000, 2, 29}, {0, 1, 1}, {0, 12, 31}, {1, 1, 1}, {9999, 12, 31}, {9999, 1, 1}, {2025, 1, 1}, {2025, 12, 31}, {2026, 1, 1},
-			{2022, 12, 31}, {2023, 1, 1}, {2023, 1, 31}, {2023, 2, 1}, {2024, 12, 31}, {2024, 1, 31}, {2024, 2, 1}, {2024, 4, 30}} {
+			{2022, 12, 31}, {2023, 1, 1}, {2023, 1, 31}, {2023, 2, 1}, {2024, 12, 31}, {2024, 1, 31}, {2024, 2, 1}, {2024, 4, 30},
+			{-1, 12, 31}, {-1500000000, 6, 15}, {1500000000, 6, 15}, {-2147483647, 1, 1}, {2147483647, 12, 31}, {-400, 2, 29}} {
 			win = append(win, x)
 		}
 		if !d.Thorough() {
@@ -616,7 +642,7 @@ func init() {
 				}
 				d.Do(Ev{"op": "date.freset", "st": 1})
 				d.Do(Ev{"op": "date.vars", "from": from, "to": to, "st": 1})
-				e := d.Do(Ev{"op": "date.fbuild", "st": 1})
+				e := d.Do(Ev{"op": "date.fbuild", "same": fi == ti, "st": 1})
 				if e["ok"] == true {
 					// the caller's variables change after construction (sometimes to nil, sometimes swapped)
 					switch k % 3 {
